@@ -301,9 +301,17 @@ func oneCase(rt *rapid.T, opName, stop string) (fail string, labels []string) {
 			}
 		}
 	}
+	hashFails := false
 	if hashing >= 0 {
+		// ... and the piece may turn out corrupt: the hasher then discards it
+		// itself, while the deletion is waiting to do the same
+		hashFails = rapid.Bool().Draw(rt, "hashFails")
 		for c := 0; c < x.Blocks(hashing); c++ {
-			t.Pieces.AddData(uint32(hashing), uint32(c*16384), x.Data(hashing, int64(c)*16384, 16384), ^uint32(0))
+			d := append([]byte(nil), x.Data(hashing, int64(c)*16384, 16384)...)
+			if hashFails && c == 0 {
+				d[0] ^= 1
+			}
+			t.Pieces.AddData(uint32(hashing), uint32(c*16384), d, ^uint32(0))
 		}
 		ps := &t.Pieces
 		_ = ps
@@ -456,6 +464,9 @@ func oneCase(rt *rapid.T, opName, stop string) (fail string, labels []string) {
 		}
 		close(hashRelease)
 		labels = append(labels, "hash-in-flight-during-deletion")
+		if hashFails {
+			labels = append(labels, "hash-fails-during-deletion")
+		}
 	}
 	time.Sleep(15 * time.Second)
 	sim.Settle()
